@@ -16,6 +16,7 @@ import json
 import os
 import random
 import re
+import shutil
 import subprocess
 import time
 
@@ -78,7 +79,7 @@ def desc_sig(d):
 
 def cause_sig(d, f):
     """the table shape and the one predicate that is to blame: stable across endpoints, zones and seeds"""
-    tbl = d['kind'] + ('/' + d['wrule'] if d['wrule'] else '') + ('/agg15' if d['agg15'] else '')
+    tbl = f['table'] + '(' + d['kind'] + ('/' + d['wrule'] if d['wrule'] else '') + ')'
     by_ts = d['kind'] == 'data' or (d['kind'] == 'both' and (d['tlo']['op'] != 'none' or d['thi']['op'] != 'none'))
     side = f.get('side')
     if side == 'ty' or f['why'] in ('other-signal', 'type-filter'):
@@ -201,6 +202,15 @@ def wait_all(procs, what, timeout):
 
 
 def run(tier):
+    sd = vlib.scratch('c13')
+    try:
+        return run_in(tier, sd)
+    finally:
+        if not os.environ.get('VERIF_KEEP'):
+            shutil.rmtree(sd, ignore_errors=True)
+
+
+def run_in(tier, sd):
     t_start = time.time()
     rng = random.Random(vlib.seed())
     binp = vlib.go_build('cmd/c13', 'c13')
@@ -208,7 +218,6 @@ def run(tier):
         zones = ['UTC', rng.choice(['America/New_York', 'Europe/Moscow'])]
     else:
         zones = ['UTC', 'America/New_York', 'Europe/Moscow']
-    sd = vlib.scratch('c13')
     assumptions = [
         'the ClickHouse server runs in UTC (date columns filled by materialized views with toDate(); chsql evaluates date functions in UTC)',
         'rows of the store are planted with the writer\'s date rule (time_series / profiles: UTC day; tempo tags: day in the writer\'s zone); '
@@ -267,16 +276,16 @@ def run(tier):
     # ---- 2. TLC decides leak / miss for every descriptor
     # day 1 = ticks 96..191; New York's midnight is at tick 116 (05:00 UTC), Moscow's at tick 180 (21:00 UTC)
     if tier == 'quick':
-        ticks_from = '(92..120) \\cup (176..196)'
-        lens, every = '(0..9) \\cup (20..24) \\cup (88..100)', 11
+        ticks_from = '(94..98) \\cup (115..117) \\cup (179..181) \\cup (190..193)'
+        lens, every = '(0..4) \\cup (20..22) \\cup (94..98)', 11
     else:
-        ticks_from, lens, every = '96..191', '0..191', 7
+        ticks_from, lens, every = '96..191', '(0..30) \\cup (80..112)', 7
     mod = '---- MODULE MC_WindowGen ----\nEXTENDS MC_Window\nMDescSeq == <<\n  ' + ',\n  '.join(vlib.tla_value(d) for d in descs) + '\n>>\n'
     mod += 'MTicks == 0..287\nMZones == {-20, 0, 12}\nMTypes == {0, 1, 2}\nMWinLens == %s\nMFrom == %s\n====\n' % (lens, ticks_from)
     modp, cfgp = os.path.join(sd, 'MC_WindowGen.tla'), os.path.join(sd, 'MC_WindowGen.cfg')
     open(modp, 'w').write(mod)
     open(cfgp, 'w').write((CFG % {'every': every}).replace('MaxTick = 287', 'MaxTick = 287\n  FromTicks <- MFrom'))
-    res = vlib.tlc(SPECDIR, 'MC_WindowGen', 'MC_WindowGen.cfg', timeout=200 if tier == 'quick' else 1500, heap='6g', copy_extra=[modp, cfgp])
+    res = vlib.tlc(SPECDIR, 'MC_WindowGen', 'MC_WindowGen.cfg', timeout=500 if tier == 'quick' else 2400, heap='6g', copy_extra=[modp, cfgp])
     try:
         out = res['out']
         if res['violated'] or not res.get('finished') or 'Model checking completed. No error has been found' not in out:
@@ -301,23 +310,22 @@ def run(tier):
             raise vlib.Infra('known-bad reference descriptor %s not flagged by TLC (%s): the model is vacuous' % (desc_sig(d), d['ref']))
     real_cands = sorted(k for k in cand if k[0] <= n_real)
     # ---- 3. replay the witnesses against the real endpoints
-    jobs = {z: [] for z in zones}
-    seen_jobs, unprobed = set(), 0
+    jobs = {z: [] for z in ZONE_OF.values()}    # a witness is replayed under the reader zone it names, whatever zones the extraction used
+    seen_jobs = set()
     per_key = 2 if tier == 'quick' else 4
-    max_eps = 2 if tier == 'quick' else 6
+    max_eps = 6 if tier == 'quick' else 16
     for (did, kind) in real_cands:
         ws = sorted(cand[(did, kind)], key=lambda w: (w['tzr'], w['tzw'], w['to'] - w['from'], w['from']))
-        eps = sorted(users.get(did, []), key=lambda s: (s['endpoint'], s['cluster']))
-        rng.shuffle(eps)
+        # one endpoint per endpoint family (and cluster mode), deterministically
+        fam = {}
+        for s in sorted(users.get(did, []), key=lambda s: (s['endpoint'], s['cluster'])):
+            fam.setdefault(('.'.join(s['endpoint'].split('.')[:2]), s['cluster']), s)
+        eps = [fam[k] for k in sorted(fam)]
         byzone = {}
         for w in ws:
             byzone.setdefault((w['tzr'], w['tzw']), []).append(w)
         for (tzr, tzw), lst in sorted(byzone.items()):
             z = ZONE_OF[tzr]
-            if z not in zones:
-                # the reader zone does not matter for descriptors without local date functions: TLC then uses tzr = 0
-                unprobed += 1
-                continue
             for w in lst[:per_key]:
                 for s in eps[:max_eps]:
                     lookback = s.get('lookback_ns', 0)
@@ -333,7 +341,7 @@ def run(tier):
                                     'end_ns': end, 'writer_tz': ZONE_OF[tzw] if by_id[did]['wrule'] == 'local' else '', 'extra_ts': [BASE_NS + w['ts'] * TICK_NS],
                                     'desc': did, 'kind': kind, 'witness': w})
     procs = {}
-    for z in zones:
+    for z in sorted(jobs):
         if not jobs[z]:
             continue
         inp = os.path.join(sd, 'jobs_%s.json' % z.replace('/', '_'))
@@ -362,13 +370,40 @@ def run(tier):
         by_stmt.setdefault((k[0], k[1], k[2], merged[k]['table']), set()).add(did)
         by_table.setdefault((k[0], k[1], merged[k]['table']), set()).add(did)
     groups, gaps = {}, []
+
+    def dids_of(f):
+        return by_stmt.get((f['endpoint'], f['cluster'], f['stmt'], f['table'])) or by_table.get((f['endpoint'], f['cluster'], f['table'])) or set()
+
+    def bounded(did, side):
+        d = by_id[did]
+        fld = {'lo': ('dlo', 'tlo'), 'hi': ('dhi', 'thi')}.get(side)
+        return bool(fld) and (d[fld[0]] != 'none' or d[fld[1]]['op'] != 'none')
+
+    # one row let through by several index scans of one statement (fingerprint sub-select without upper date bound, outer
+    # select with one): the scan that HAS a bound on that side and still admits the row is the one to blame
+    per_row = {}
     for f in findings:
-        dids = by_stmt.get((f['endpoint'], f['cluster'], f['stmt'], f['table'])) or by_table.get((f['endpoint'], f['cluster'], f['table'])) or set()
+        if f['kind'] == 'leak' and f['why'] == 'outside-window':
+            k = (f['endpoint'], f['cluster'], f['tz'], f['writer_tz'], f['win']['start_ns'], f['win']['end_ns'], f['stmt'], f['entity']['marker'], f['side'])
+            per_row.setdefault(k, []).append(f)
+    dropped = set()
+    for k, fs in per_row.items():
+        if any(any(bounded(d, k[-1]) for d in dids_of(f)) for f in fs):
+            for f in fs:
+                if not any(bounded(d, k[-1]) for d in dids_of(f)):
+                    dropped.add(id(f))
+    for f in findings:
+        if id(f) in dropped:
+            continue
+        dids = dids_of(f)
         flagged = sorted(d for d in dids if (d, f['kind']) in cand)
         if not flagged:
             gaps.append('%s on %s (%s, TZ=%s): %s; descriptors %s' % (f['kind'], f['endpoint'], f['table'], f['tz'], f['detail'][:200],
                                                                     [desc_sig(by_id[d]) for d in sorted(dids)]))
             continue
+        # a statement may read the table twice (fingerprint sub-select and outer select): blame the scan that has a bound
+        # on the side in question (it is the tighter one and still let the row through / still rejected it)
+        flagged.sort(key=lambda x: (0 if bounded(x, f.get('side')) else 1, desc_sig(by_id[x])))
         did = flagged[0]
         key = (f['kind'], f['why'], cause_sig(by_id[did], f))
         g = groups.setdefault(key, {'n': 0, 'endpoints': set(), 'zones': set(), 'roles': set(), 'example': None, 'visible': 0, 'dids': set()})
@@ -419,7 +454,7 @@ def run(tier):
         'descriptors': {desc_sig(d): sorted(set(s['endpoint'] for s in users.get(d['id'], [])))[:6] for d in descs[:n_real]},
         'tlc_wall_s': round(tlc_wall, 1), 'tlc_witnesses': len(wits), 'tlc_candidates': len(real_cands), 'candidates_confirmed_on_real_code': len(confirmed),
         'candidates_refuted_or_unconfirmed': [('%s: %s' % (k[1], desc_sig(by_id[k[0]]))) for k in refuted],
-        'witness_zone_pairs_not_run_in_this_tier': unprobed, 'witness_replays': sum(len(v) for v in jobs.values()),
+        'witness_replays': sum(len(v) for v in jobs.values()),
         'real_code_observations': len(findings), 'writer_rule_observations': sum(len(ex['writer_obs']) for ex in extracts.values()),
         'statements_rejected_by_the_interpreter_for_other_reasons': stmt_errors[:6],
         'requests_answered_non_2xx_after_running_sql': sum(len(ex.get('non2xx') or []) for ex in extracts.values()),
